@@ -662,9 +662,10 @@ func c16SubMain(o *hx.Out, f hx.Flags) {
 			if subHeld {
 				s.do("SW")
 			}
-			if subscribed || subHeld {
-				s.do("D")
+			if !subscribed && !subHeld {
+				s.do("S") // a subscription after everything: the initial value alone
 			}
+			s.do("D")
 		})
 	}
 }
